@@ -1,5 +1,7 @@
 import os
 
+import numpy as np
+
 from glue.core import Subset
 from glue.config import data_exporter
 
@@ -38,7 +40,14 @@ def table_exporter(fmt, label, extension):
     def factory(filename, data, components=None):
         if os.path.exists(filename):
             os.remove(filename)
-        return data_to_astropy_table(data, components=components).write(filename, format=fmt)
+        table = data_to_astropy_table(data, components=components)
+        if fmt == 'fits':
+            # FITS tables don't have a signed 8-bit integer type, and astropy
+            # would write such columns as logical (True/False) values
+            for name in table.colnames:
+                if table[name].dtype == np.int8:
+                    table[name] = table[name].astype(np.int16)
+        return table.write(filename, format=fmt)
 
     # rename function to its variable reference below
     # allows pickling to work
